@@ -69,11 +69,21 @@ fn msg_of(m: &Sx) -> Message {
         "a" => Message::Assistant { text: text_of(&l[1]), timestamp: Some("2024-01-01T00:00:00Z".into()) },
         "t" => Message::Thinking { text: text_of(&l[1]), timestamp: None },
         "p" => Message::Plan { text: text_of(&l[1]), timestamp: None },
+        // (x NAME JSON-TEXT): the tool input is an arbitrary JSON value
         _ => Message::ToolUse {
             name: text_of(&l[1]),
-            input: serde_json::Value::String(text_of(&l[2])),
+            input: serde_json::from_str(&text_of(&l[2])).expect("tool input is not JSON"),
             timestamp: None,
         },
+    }
+}
+
+fn take_leaves(v: &mut serde_json::Value, out: &mut Vec<String>) {
+    match v {
+        serde_json::Value::String(s) => out.push(std::mem::take(s)),
+        serde_json::Value::Array(a) => a.iter_mut().for_each(|x| take_leaves(x, out)),
+        serde_json::Value::Object(m) => m.values_mut().for_each(|x| take_leaves(x, out)),
+        _ => {}
     }
 }
 
@@ -83,11 +93,19 @@ fn show_msg(m: &Message) -> Sx {
         Message::Assistant { text, .. } => Sx::L(vec![sym("a"), byte_list(text.as_bytes())]),
         Message::Thinking { text, .. } => Sx::L(vec![sym("t"), byte_list(text.as_bytes())]),
         Message::Plan { text, .. } => Sx::L(vec![sym("p"), byte_list(text.as_bytes())]),
-        Message::ToolUse { name, input, .. } => Sx::L(vec![
-            sym("x"),
-            byte_list(name.as_bytes()),
-            byte_list(input.as_str().map(|s| s.to_string()).unwrap_or_else(|| input.to_string()).as_bytes()),
-        ]),
+        // (x NAME SHAPE (LEAF ...)): the string leaves in document order, and the value with every string
+        // leaf emptied (keys, numbers, nesting) printed compactly
+        Message::ToolUse { name, input, .. } => {
+            let mut leaves = Vec::new();
+            let mut shape = input.clone();
+            take_leaves(&mut shape, &mut leaves);
+            Sx::L(vec![
+                sym("x"),
+                byte_list(name.as_bytes()),
+                byte_list(shape.to_string().as_bytes()),
+                Sx::L(leaves.iter().map(|s| byte_list(s.as_bytes())).collect()),
+            ])
+        }
     }
 }
 
@@ -102,6 +120,13 @@ pub fn prompts(body: &str) -> String {
         for m in &msgs {
             if let Some(t) = m.text() {
                 cands_of(t, &mut c);
+            }
+            if let Message::ToolUse { input, .. } = m {
+                let mut leaves = Vec::new();
+                take_leaves(&mut input.clone(), &mut leaves);
+                for t in &leaves {
+                    cands_of(t, &mut c);
+                }
             }
         }
         map.insert(
